@@ -386,13 +386,57 @@ Section PathModel.
     let q := extend p (pending p) true in
     mkPath (conditions q) [] (related q) (var_to_conds q) (sliced q) (solver q).
 
-  (* Path.slice: None models `raise ValueError("already sliced")` *)
+  (* Path.slice, the body of its `for idx in self.var_to_conds[var]` loop: a condition that is
+     not yet in the slice joins it and its variables are appended to the worklist.  The
+     worklist is kept as a stack whose head is the END of the Python list (`worklist.pop()`).
+     None models the IndexError of `conds[idx]`. *)
+  Fixpoint slice_visit (conds : list (cond * bool)) (idxs : list nat) (sl : list nat) (work : list Z)
+    : option (list nat * list Z) :=
+    match idxs with
+    | [] => Some (sl, work)
+    | idx :: r =>
+        if existsb (Nat.eqb idx) sl then slice_visit conds r sl work
+        else
+          match nth_error conds idx with
+          | Some cb => slice_visit conds r (sl ++ [idx])%list (rev (vars (fst cb)) ++ work)%list
+          | None => None
+          end
+    end.
+
+  (* `while worklist:` -- every variable is expanded once (`seen`), every condition joins the
+     slice once, so slice_fuel iterations are enough; running out of fuel is None *)
+  Fixpoint slice_loop (fuel : nat) (conds : list (cond * bool)) (m : list (Z * list nat))
+                      (sl : list nat) (seen work : list Z) : option (list nat * list (Z * list nat)) :=
+    match fuel with
+    | O => None
+    | S f =>
+        match work with
+        | [] => Some (sl, m)
+        | var :: rest =>
+            if existsb (Z.eqb var) seen then slice_loop f conds m sl seen rest
+            else
+              let m' := v2c_touch m var in
+              match slice_visit conds (v2c_get m' var) sl rest with
+              | Some (sl', work') => slice_loop f conds m' sl' (var :: seen) work'
+              | None => None
+              end
+        end
+    end.
+
+  Definition slice_fuel (conds : list (cond * bool)) (var_set : list Z) : nat :=
+    S (List.length var_set + List.length (flat_map (fun cb => vars (fst cb)) conds)).
+
+  (* Path.slice: every condition connected to var_set through shared variables, in either
+     order of appearance (a closure over var_to_conds / get_var_set; `related` is not used).
+     None models `raise ValueError("already sliced")` *)
   Definition slice (p : path) (var_set : list Z) : option path :=
     match sliced p with
     | Some _ => None
     | None =>
-        let (rel, m') := get_related p var_set in
-        Some (mkPath (conditions p) (pending p) (related p) m' (Some rel) (solver p))
+        match slice_loop (slice_fuel (conditions p) var_set) (conditions p) (var_to_conds p) [] [] (rev var_set) with
+        | Some (sl, m') => Some (mkPath (conditions p) (pending p) (related p) m' (Some sl) (solver p))
+        | None => None
+        end
     end.
 
   Fixpoint select_idx (l : list (cond * bool)) (idx : nat) (keep : list nat) : list cond :=
@@ -464,6 +508,32 @@ Section PathModel.
     end.
 
   Definition accumulated (ops : list pop) : list cond := accumulated_from [] ops.
+
+  (* every constraint handed to the path or to the fork that created it: a fork condition is a
+     constraint of the forked path from the moment of the fork *)
+  Definition handed (ops : list pop) : list cond :=
+    flat_map (fun o => match o with OAppend c _ => [c] | OBranch c => [c] | OFork c => [c] | _ => [] end) ops.
+
+  (* the pending list after the operations *)
+  Fixpoint pending_after (pend : list cond) (ops : list pop) : list cond :=
+    match ops with
+    | [] => pend
+    | OFork c :: r => pending_after (pend ++ [c]) r
+    | OActivate :: r => pending_after [] r
+    | OExtend _ :: r => pending_after [] r
+    | _ :: r => pending_after pend r
+    end.
+
+  (* no Path(...).extend_path(p) on a p that still waits for activation (extend_path takes
+     `conditions` only: what is pending on p would be lost) *)
+  Fixpoint extends_active_from (pend : list cond) (ops : list pop) : bool :=
+    match ops with
+    | [] => true
+    | OFork c :: r => extends_active_from (pend ++ [c]) r
+    | OActivate :: r => extends_active_from [] r
+    | OExtend _ :: r => match pend with [] => extends_active_from [] r | _ :: _ => false end
+    | _ :: r => extends_active_from pend r
+    end.
 
   (* what the solvers handed to Path(...) already held: the first one, then one per extension *)
   Definition bases (s0 : list cond) (ops : list pop) : list cond :=
